@@ -179,7 +179,9 @@ def _viol(res, rule, f, site, msg):
     if key in res._seen:
         return
     res._seen.add(key)
-    res.bad(Violation(rule, f["path"], site, msg, *_floc(f)))
+    # crate-private list helpers are identified by the role discovered for them (anchors.py), not by their current name
+    role = res._ctx.A.role_of(f["path"]) if getattr(res, "_ctx", None) is not None else None
+    res.bad(Violation(rule, ("alg:" + role) if role else f["path"], site, msg, *_floc(f)))
 
 
 def _site_of(p, n):
@@ -197,6 +199,7 @@ def rule_Y3(ctx, R):
     res = _mk("Y3", "retrying collection: whenever a blocking acquisition is issued no lock of this acquisition is held (held-set "
                     "analysis, list length <= N, bounded retries, every try outcome)")
     res._seen = set()
+    res._ctx = ctx
     runs = _run_all(ctx, tier_n())
     for (label, n), (f, kind, mode, paths, err) in sorted(runs.items()):
         if not (label.startswith("Retrying::") and kind == "ACQ"):
@@ -263,6 +266,7 @@ def rule_Y2(ctx, R):
     res = _mk("Y2", "retrying collection: every path from a failed try back to the blocking site passes through the rollback of the "
                     "acquired prefix, in mode, and releases the first lock only under the index guard")
     res._seen = set()
+    res._ctx = ctx
     runs = _run_all(ctx, tier_n())
     for (label, n), (f, kind, mode, paths, err) in sorted(runs.items()):
         if not (label.startswith("Retrying::") and kind == "ACQ") or n == 0:
@@ -296,6 +300,7 @@ def rule_E5(ctx, R):
     res = _mk("E5", "all-or-nothing bookkeeping of collection-level acquisitions: normal return of a blocking op / `true` of a try op => "
                     "all n locks held in mode; `false` => none held (held-set analysis, n <= N)")
     res._seen = set()
+    res._ctx = ctx
     runs = _run_all(ctx, tier_n())
     for (label, n), (f, kind, mode, paths, err) in sorted(runs.items()):
         if kind not in ("ACQ", "TRY"):
@@ -353,6 +358,7 @@ def rule_X2(ctx, R):
     res = _mk("X2", "collection try is a conjunction in list order: members are tried 0,1,2.. in the requested mode only, `false` at the "
                     "first refusal, `true` after n successes, and no blocking acquisition is issued")
     res._seen = set()
+    res._ctx = ctx
     runs = _run_all(ctx, tier_n())
     for (label, n), (f, kind, mode, paths, err) in sorted(runs.items()):
         if kind != "TRY":
@@ -396,6 +402,7 @@ def rule_Q3(ctx, R):
     res = _mk("Q3", "rollback and release paths of the algorithms use the release matching the acquisition mode and never release "
                     "what is not held (no fault injected): released ⊆ held, in mode, once")
     res._seen = set()
+    res._ctx = ctx
     runs = _run_all(ctx, tier_n())
     for (label, n), (f, kind, mode, paths, err) in sorted(runs.items()):
         if err:
@@ -430,6 +437,7 @@ def rule_Q4(ctx, R):
                     "unwinding with no lock held, nothing released that was not held, nothing released twice, and nothing killed "
                     "except the lock whose own operation panicked")
     res._seen = set()
+    res._ctx = ctx
     runs = _run_all(ctx, tier_n())
     for (label, n), (f, kind, mode, paths, err) in sorted(runs.items()):
         if err:
